@@ -30,7 +30,7 @@ Inductive klass := Writer | Reader | OtherFn.
 Inductive rmode := MR | MRW | MA | MDefault | MVar | MOther.
 Inductive site :=
   | SIoCall | SDirect | SFileOpen | SHandleStore | SHandlePass | SHandleMethod | SHandleAttr | SHandleIndex | SHandleTest
-  | SHandleReturn | SHandleWith | SHandleOther | SWsAlias | SFetchH5 | SReaderMut.
+  | SHandleReturn | SHandleWith | SHandleOther | SHandleAlias | SWsAlias | SFetchH5 | SReaderMut.
 Record row := { r_site : site; r_encl : string; r_cls : klass; r_callee : string; r_mode : rmode;
                 r_file : string; r_line : N; r_end : N }.
 
@@ -38,7 +38,8 @@ Definition site_eqb (a b : site) : bool :=
   match a, b with
   | SIoCall, SIoCall | SDirect, SDirect | SFileOpen, SFileOpen | SHandleStore, SHandleStore | SHandlePass, SHandlePass
   | SHandleMethod, SHandleMethod | SHandleAttr, SHandleAttr | SHandleIndex, SHandleIndex | SHandleTest, SHandleTest
-  | SHandleReturn, SHandleReturn | SHandleWith, SHandleWith | SHandleOther, SHandleOther | SWsAlias, SWsAlias
+  | SHandleReturn, SHandleReturn | SHandleWith, SHandleWith | SHandleOther, SHandleOther | SHandleAlias, SHandleAlias
+  | SWsAlias, SWsAlias
   | SFetchH5, SFetchH5 | SReaderMut, SReaderMut => true
   | _, _ => false
   end.
@@ -66,12 +67,13 @@ Definition gatedb (r : row) : bool :=
   | SHandlePass =>                              (* the handle is handed to a routine only by _io_call (and the setter above) *)
       (String.eqb (r_encl r) "Workspace._io_call") ||
       (String.eqb (r_encl r) "Workspace.h5file" && String.eqb (r_callee r) "H5Writer.init_geoh5") ||
-      (String.eqb (r_callee r) "isinstance")
+      (String.eqb (r_callee r) "isinstance") || (String.eqb (r_callee r) "bool")
   | SHandleMethod => String.eqb (r_callee r) "close" && String.eqb (r_encl r) "Workspace.close"
   | SHandleAttr => String.eqb (r_callee r) "mode"
   | SHandleIndex | SHandleOther => false
   | SHandleWith => String.eqb (r_encl r) "Workspace.h5file"
   | SHandleTest | SHandleReturn => true
+  | SHandleAlias => true                        (* `h = self.geoh5`: the uses of h are rows of their own *)
   | SWsAlias => true                            (* ui_json: `geoh5` names a Workspace there *)
   | SFetchH5 =>                                 (* inside H5Reader only "r" is ever requested *)
       match r_cls r, r_mode r with
